@@ -39,12 +39,24 @@ def origin(fn, op, depth=0, seen=None, maxdepth=40):
     proj = op.get("p", [])
     base = local_origin(fn, l, depth, seen, maxdepth)
     t = base
-    for e in proj:
+    for i, e in enumerate(proj):
         if e == "*":
-            t = ("deref", t)
+            if t[0] != "self_closure":
+                t = ("deref", t)
+        elif t[0] == "self_closure" and e[1:].isdigit():
+            t = ("upvar", int(e[1:]), upvar_name(fn, int(e[1:])))
         else:
             t = ("field", t, e)
+        t = simplify(t)
     return simplify(t)
+
+
+def upvar_name(fn, idx):
+    for u in fn.mir.get("upvars", []):
+        p = u["place"]
+        if p["l"] == 1 and p.get("p") and p["p"][0] == ".%d" % idx:
+            return u["name"]
+    return None
 
 
 def local_origin(fn, l, depth, seen, maxdepth):
@@ -176,6 +188,8 @@ def leaves(t, out=None):
             leaves(a, out)
     elif k in ("self_closure",):
         out.add(("upvars",))
+    elif k == "upvar":
+        out.add(("upvar", t[2] or t[1]))
     elif k == "built":
         out.add(("built", t[2] or t[1]))
     else:
@@ -249,6 +263,8 @@ def show(t, depth=0):
         return "phi(%s)" % " | ".join(show(a, depth + 1) for a in t[1])
     if k == "self_closure":
         return "upvars"
+    if k == "upvar":
+        return "upvar:%s" % (t[2] or t[1])
     if k == "built":
         return "local:%s" % (t[2] or t[1])
     return k
@@ -420,3 +436,37 @@ def eval_bool_table(rows, assignment):
                 return v if val[2] else (not v)
             return val
     return None
+
+
+def mentions(t, needle):
+    """does the (untruncated) term mention `needle` in a call path, field, static, named const or param name"""
+    k = t[0]
+    if k == "call":
+        if needle in t[1] or (t[4] and needle in t[4]):
+            return True
+        return any(mentions(a, needle) for a in t[2])
+    if k == "callind":
+        return mentions(t[1], needle) or any(mentions(a, needle) for a in t[2])
+    if k == "field":
+        return needle in t[2] or mentions(t[1], needle)
+    if k in ("cast", "ref", "deref", "discr", "repeat"):
+        return mentions(t[1], needle)
+    if k == "bin":
+        return mentions(t[2], needle) or mentions(t[3], needle)
+    if k == "un":
+        return mentions(t[2], needle)
+    if k == "agg":
+        return needle in t[1] or any(mentions(a, needle) for a in t[2])
+    if k == "phi":
+        return any(mentions(a, needle) for a in t[1])
+    if k == "static":
+        return needle in t[1]
+    if k == "const":
+        return (len(t) > 2 and t[2] and needle in t[2]) or (isinstance(t[1], str) and needle in t[1])
+    if k in ("param", "upvar"):
+        return bool(t[2]) and needle in t[2]
+    if k == "fnitem":
+        return needle in t[1]
+    if k == "built":
+        return bool(t[2]) and needle in t[2]
+    return False
